@@ -51,7 +51,10 @@ def random_programs(rng, kinds, n, nops, maxcalls=4):
     for i in range(n):
         kind = kinds[i % len(kinds)]
         k = nops if isinstance(nops, int) else rng.choice(nops)
-        progs.append(schema.random_program(rng, kind, k, maxcalls))
+        p = schema.random_program(rng, kind, k, maxcalls)
+        if i % 5 == 4 and kind not in ("FADT", "TCPA_SERVER"):
+            p["shadow"] = True          # a second builder of the same type is alive and growing in lock-step
+        progs.append(p)
     return progs
 
 
